@@ -1,22 +1,32 @@
-"""C09 - Primitive wire codecs (partial): agreement between the sites that must share a constant or a dependency.
+"""C09 - Primitive wire codecs (partial): every numeric field codec denotes the RFC 4880 function at the RFC boundary points.
 
-  C09.1 new-format length: the branch thresholds and formulas of encoder (_new_length), decoder (_parse_len) and width selector
-        (llen) agree with RFC 4880 4.2.2 at every boundary (guard and formula EXPRESSIONS are constant-folded by the checker)
-  C09.2 the declared length-of-length depends on the value in both header formats; old-format widening condition is exact at the
-        1/2/4-octet boundaries; the length-type maps of writer and reader are inverse
-  C09.3 MPI: reader takes (bits + 7) // 8 octets after a two-octet count; writer emits the same shape; __len__ agrees
-  C09.4 S2K coded count formula and setter bounds (with C12.3)
+The codecs are decided by *what they compute*, not by how the source spells it: the checker's own finite-point evaluator
+(sa/ceval.py) walks the canonicalised AST of the codec functions over checker-side values - integers, a run-length model of
+a bytearray that records what `del buf[a:b]` consumes, instances described by the class table - at the boundary values of the
+RFC formulas and compares octets / values / consumed widths with the RFC's own definition computed by the checker.  Objects
+are driven through their public surface (constructor, `parse`, property stores dispatched through the sdproperty table,
+`__bytearray__`, `len`), so closures vs methods vs inline code, temporaries, class constants, conditional expressions vs
+if-statements, guard clauses, keyword arguments and helper extraction cannot change a verdict.  No repository code runs.
+
+  C09.1 new-format length (RFC 4880 4.2.2): encoder at every boundary (0..191 one octet, 192..8383 two, else five), decoder for
+        every first octet (value and octets consumed), partial body length 1 << (o & 0x1F), declared width = emitted width
+  C09.2 old-format length: 1/2/4/0 octets by length type both ways, the declared width widens exactly when the length no
+        longer fits, type bits and length octets come from the same width
+  C09.3 MPI: two-octet bit count + ceil(bits / 8) octets, reader consumes exactly that, writer / byte_length / len agree
+  C09.4 S2K coded count (16 + (c & 15)) << ((c >> 4) + 6) for all 256 octets; setter accepts exactly 0..255 (with C12.3)
   C09.5 every datetime -> four octets site uses the UTC-correct idiom; every reader builds an aware UTC datetime
-  C09.6 subpacket header: canonical length, (critical << 7) + type octet, reader splits with & 0x7f / & 0x80
+  C09.6 subpacket header: new-format length, (critical << 7) | type octet, reader splits with & 0x7f / & 0x80, len
   C09.7 int_to_bytes / bytes_to_int / int_byte_len primitives (the axioms every layout rule relies on)
-Not decided: exactness for every value of the domain (would need enumeration by execution or a solver - other families).
+  C09.8 packet tag octet, both formats, writer and reader, all tags; partial-length chains add up and every chunk header is
+        removed where it sits
+Not decided: exactness for every value of the domain (finite boundary points only - stated in the evidence).
 """
 import ast
 
-from sa.interp import Interp, Scenario, Sym, Const, Bytes, render, render_items, merge_consts
-from sa.loader import AnalysisError, dotted
-from sa.s2kshape import fold, _NoFold, check_count
-from sa.timeidiom import check_time_sites
+from sa.interp import Interp, Scenario, render
+from sa.loader import AnalysisError
+from sa.ceval import Evaluator, VBuf, Obj, NoEval, Raised, Diverged, GAP_ERRORS
+from sa.timeidiom import time_sites
 
 noinline = lambda f: False  # noqa: E731
 
@@ -24,294 +34,473 @@ noinline = lambda f: False  # noqa: E731
 def run(rep, prog, tier):
     rep.rule('C09.1', 'new-format length thresholds and formulas agree with RFC 4880 4.2.2 in encoder, decoder and width selector', floor=8)
     rep.rule('C09.2', 'length-of-length depends on the value; old-format widening exact at boundaries; type maps inverse', floor=5)
-    rep.rule('C09.3', 'MPI reader/writer/length expression shapes', floor=4)
+    rep.rule('C09.3', 'MPI reader/writer/length agree with RFC 4880 3.2', floor=4)
     rep.rule('C09.4', 'S2K coded count', floor=3)
     rep.rule('C09.5', 'timestamp idioms (writer UTC-correct, reader aware UTC)', floor=7)
     rep.rule('C09.6', 'subpacket header octets', floor=4)
     rep.rule('C09.7', 'integer/octet primitives', floor=3)
     rep.rule('C09.8', 'packet tag octet: writer and reader agree for every tag, format and length type; partial-length accumulation', floor=5)
-    rep.assume('guard and formula expressions are folded by the checker\'s own integer evaluator at RFC boundary values; no repo code runs')
+    rep.assume('codec functions are evaluated by the checker\'s own finite-point evaluator (sa/ceval.py) over the canonical AST at '
+               'RFC boundary values; Python integer / bytes primitives are modelled by the checker; no repo code runs')
 
     H = prog.cls('pgpy.types', 'Header')
-    new_format(rep, prog, H)
-    widths(rep, prog, H)
-    mpi(rep, prog)
-    check_count(rep, prog, 'C09.4')
+    B = Bench(rep, prog)
+    new_format(rep, prog, H, B)
+    widths(rep, prog, H, B)
+    mpi(rep, prog, B)
+    s2k_count(rep, prog, B)
     times(rep, prog)
-    subpacket_header(rep, prog)
-    primitives(rep, prog)
-    tag_octet(rep, prog)
+    subpacket_header(rep, prog, B)
+    primitives(rep, prog, B)
+    tag_octet(rep, prog, B)
+    for q in sorted(B.E.touched):
+        rep.saw(fn=q)
 
 
-def _nested(fn_node, name):
-    for n in ast.walk(fn_node):
-        if isinstance(n, ast.FunctionDef) and n.name == name:
-            return n
-    return None
+# ------------------------------------------------------------------------------------------------- RFC 4880, computed by the checker
+def rfc_new_length(n):
+    """4.2.2: one octet below 192, two octets below 8384, else 0xFF + four octets."""
+    if n < 192:
+        return bytes([n])
+    if n < 8384:
+        return bytes([((n - 192) >> 8) + 192, (n - 192) & 0xFF])
+    return b'\xff' + n.to_bytes(4, 'big')
 
 
-def _if_chain(body):
-    """[(test or None, stmts)] for an if/elif/else chain that is the first statement of `body` (plus trailing fallthrough)."""
-    arms = []
-    node = next((s for s in body if isinstance(s, ast.If)), None)
-    rest = []
-    if node is not None:
-        rest = body[body.index(node) + 1:]
-    while isinstance(node, ast.If):
-        arms.append((node.test, node.body))
-        if len(node.orelse) == 1 and isinstance(node.orelse[0], ast.If):
-            node = node.orelse[0]
-        else:
-            if node.orelse:
-                arms.append((None, node.orelse))
-            node = None
-    if rest:
-        arms.append((None, rest))
-    return arms
+OLD_TYPE_OF_WIDTH = {1: 0, 2: 1, 4: 2, 0: 3}        # 4.2.1
+WIDTH_OF_OLD_TYPE = {0: 1, 1: 2, 2: 4, 3: 0}
 
 
-def _arm_of(arms, env):
-    for i, (t, body) in enumerate(arms):
-        if t is None or fold(t, env):
-            return i
-    return None
+def rfc_old_width(parsed, n):
+    """Width of an old-format length field that was `parsed` octets wide and must now hold n."""
+    w = parsed
+    while 0 < w < 4 and n >= (1 << (8 * w)):
+        w *= 2
+    return w
 
 
-def new_format(rep, prog, H):
-    enc = H.methods.get('encode_length')
-    nl = _nested(enc.node, '_new_length')
-    if nl is None:
-        raise AnalysisError('Header.encode_length._new_length vanished')
-    rep.saw(fn=enc)
-    p = nl.args.args[0].arg
-    arms = _if_chain(nl.body)
-    try:
-        # encoder arm selection at the RFC boundaries
-        want = {0: 0, 1: 0, 191: 0, 192: 1, 193: 1, 8383: 1, 8384: 2, 8385: 2, 65535: 2, 0xFFFFFFFF: 2}
-        got = {n: _arm_of(arms, {p: n}) for n in want}
-        rep.check(got == want, 'C09.1', 'Header.encode_length._new_length', 'arm per length %s' % {k: v for k, v in got.items() if want[k] != v},
-                  'lengths 0..191 take one octet, 192..8383 two octets, above that five (RFC 4880 4.2.2)', where='%s:%d' % (enc.module.relpath, nl.lineno),
-                  expected=want, found=got)
-        # two-octet formula: value emitted = ((n - 192) >> 8) + 192 , (n - 192) & 0xFF
-        ret2 = [s for s in arms[1][1] if isinstance(s, ast.Return)] if len(arms) > 1 else []
-        formula = None
-        env_assign = {}
-        for s in arms[1][1] if len(arms) > 1 else []:
-            if isinstance(s, ast.Assign) and isinstance(s.targets[0], ast.Name):
-                env_assign[s.targets[0].id] = s.value
-        if ret2 and isinstance(ret2[0].value, ast.Call) and ret2[0].value.args:
-            formula = ret2[0].value.args[0]
-            if isinstance(formula, ast.Name) and formula.id in env_assign:
-                formula = env_assign[formula.id]
-            width = ret2[0].value.args[1] if len(ret2[0].value.args) > 1 else None
-        if formula is None:
-            raise AnalysisError('_new_length: two-octet arm has an unrecognised shape')
-        bad = None
-        for n in list(range(192, 8384)):
-            v = fold(formula, {p: n})
-            exp = ((((n - 192) >> 8) + 192) << 8) + ((n - 192) & 0xFF)
-            if v != exp:
-                bad = (n, v, exp)
+def rfc_count(c):
+    return (16 + (c & 15)) << ((c >> 4) + 6)         # 3.7.1.3, EXPBIAS = 6
+
+
+def octets_needed(i):
+    return (i.bit_length() + 7) // 8
+
+
+LENGTH_POINTS = sorted(set(
+    list(range(0, 600)) + list(range(600, 8384, 5)) + [k * 256 + d for k in range(1, 34) for d in (-1, 0, 1, 191, 192, 193)] +
+    [8190, 8191, 8192, 8193, 8382, 8383, 8384, 8385, 8386, 8447, 8448, 8575, 8576, 16319, 16320, 16383, 16384, 65535, 65536, 65537,
+     (1 << 24) - 1, 1 << 24, (1 << 31) - 1, 1 << 31, (1 << 32) - 2, (1 << 32) - 1]))
+
+
+# ------------------------------------------------------------------------------------------------- bench
+def snap(v):
+    """Comparable snapshot of an octet string (a huge run-length buffer stays run-length)."""
+    if isinstance(v, VBuf):
+        return v.tobytes() if len(v) <= 4096 else ('octets',) + tuple((a, b) for a, b in v.runs)
+    if isinstance(v, (bytes, bytearray)):
+        return bytes(v)
+    if isinstance(v, Obj) and v.ival is not None:
+        return v.ival
+    if isinstance(v, bool):
+        return v
+    return v
+
+
+def show(x):
+    if isinstance(x, tuple) and x and x[0] == 'ok':
+        return show(x[1])
+    if isinstance(x, tuple) and x and x[0] == 'raise':
+        return 'raises %s' % x[1]
+    if isinstance(x, tuple) and x and x[0] == 'diverged':
+        return 'does not terminate'
+    if isinstance(x, bytes):
+        return x.hex() if len(x) <= 24 else '%s..(%d octets)' % (x[:12].hex(), len(x))
+    if isinstance(x, tuple) and x and x[0] == 'octets':
+        return 'octets[%s]' % ' '.join('%02x*%d' % r for r in x[1:6])
+    if isinstance(x, tuple):
+        return '(%s)' % ', '.join(show(e) for e in x)
+    return repr(x)
+
+
+class Bench(object):
+    """Runs evaluator thunks; outcomes are ('ok', value) | ('raise', name) | ('diverged',).  Constructs the evaluator cannot
+    model (or evaluator-level type / attribute errors, which are modelling gaps) end the analysis with exit 2."""
+    def __init__(self, rep, prog):
+        self.rep = rep
+        self.prog = prog
+        self.E = Evaluator(prog)
+
+    def run(self, what, thunk):
+        try:
+            return ('ok', thunk())
+        except Raised as ex:
+            if ex.name in GAP_ERRORS and not ex.sure:
+                raise AnalysisError('%s: evaluation stopped with %s (%s)' % (what, ex.name, ex.detail))
+            return ('raise', ex.name)
+        except Diverged:
+            return ('diverged',)
+        except NoEval as ex:
+            raise AnalysisError('%s: outside the checker\'s evaluator: %s' % (what, ex))
+        except RecursionError:
+            raise AnalysisError('%s: recursion' % what)
+
+    def sweep(self, rid, construct, where, what, message, cases, rep=None):
+        """cases: iterable of (label, thunk, expected outcome).  One rule instance; the first disagreeing point is reported."""
+        rep = rep or self.rep
+        bad, n = None, 0
+        for label, thunk, want in cases:
+            n += 1
+            got = self.run('%s [%s]' % (construct, label), thunk)
+            if got != want:
+                bad = (label, got, want)
                 break
-        rep.check(bad is None and width is not None and fold(width, {}) == 2, 'C09.1', 'Header.encode_length._new_length', 'two-octet formula %s' % ast.unparse(formula),
-                  'two-octet encoding must be ((n - 192) >> 8) + 192, (n - 192) & 0xFF' + ('' if bad is None else ': n=%d gives %#x, RFC %#x' % bad),
-                  where='%s:%d' % (enc.module.relpath, nl.lineno), found=ast.unparse(formula))
-        r5 = [s for s in arms[2][1] if isinstance(s, ast.Return)] if len(arms) > 2 else []
-        rep.check(bool(r5) and ast.unparse(r5[0].value).replace(' ', '') in ("b'\\xff'+Header.int_to_bytes(nl,4)".replace('nl', p),), 'C09.1',
-                  'Header.encode_length._new_length', 'five-octet form %s' % (ast.unparse(r5[0].value) if r5 else None),
-                  'five-octet encoding is 0xFF followed by the four-octet length', where='%s:%d' % (enc.module.relpath, nl.lineno))
-    except _NoFold as ex:
-        raise AnalysisError('_new_length: expression not foldable: %s' % ex)
-    # decoder
-    lb = None
-    for tn, f in H.props['length'].setter_order:
-        if tn in ('bytes', 'bytearray'):
-            lb = f
+        if bad is None:
+            rep.check(True, rid, construct, what, message, where=where, detail='%s: %d points agree with the RFC' % (what, n))
+            return True
+        label, got, want = bad
+        rep.check(False, rid, construct, '%s: %s' % (what, label), '%s: %s gives %s, RFC 4880 gives %s' % (message, label, show(got), show(want)),
+                  where=where, expected=show(want), found=show(got), scenario=label)
+        return False
+
+
+def ok(v):
+    return ('ok', v)
+
+
+def _setter(E, ci, prop, tname):
+    p = E._prop(ci, prop)
+    return p[1].get(tname) if p else None
+
+
+def _where(*fis):
+    for f in fis:
+        if f is not None:
+            return f.where
+    return None
+
+
+# ------------------------------------------------------------------------------------------------- packet header bench
+def packet_header(E, PH, octets):
+    """Parse `octets` (VBuf, consumed in place) with a fresh packet Header."""
+    h = E.new(PH)
+    E.method(h, 'parse', octets)
+    return h
+
+
+def new_header_octets(tag, field, body=b''):
+    buf = VBuf(bytes([0xC0 | tag]))
+    buf.extend(field)
+    buf.extend(body)
+    return buf
+
+
+# ------------------------------------------------------------------------------------------------- C09.1
+def new_format(rep, prog, H, B):
+    E = B.E
+    PH = prog.cls('pgpy.packet.types', 'Header')
+    enc = H.find_method('encode_length')
+    if enc is None:
+        raise AnalysisError('Header.encode_length vanished')
+    rep.saw(fn=enc)
+    msg = 'lengths 0..191 take one octet, 192..8383 two octets ((n - 192) >> 8) + 192, (n - 192) & 0xFF, above that 0xFF and four octets (RFC 4880 4.2.2)'
+    classes = (('one-octet lengths 0..191', lambda n: n < 192), ('two-octet lengths 192..8383', lambda n: 192 <= n < 8384),
+               ('five-octet lengths 8384..2^32-1', lambda n: n >= 8384))
+    for what, sel in classes:
+        B.sweep('C09.1', 'Header.encode_length', enc.where, what, msg,
+                (('length %d' % n, (lambda n=n: snap(E.call(enc, None, [n]))), ok(rfc_new_length(n))) for n in LENGTH_POINTS if sel(n)))
+    # the default arguments select the new format (subpacket headers call encode_length(length))
+    B.sweep('C09.1', 'Header.encode_length', enc.where, 'explicit new-format flag', msg,
+            (('length %d, nhf=True' % n, (lambda n=n: snap(E.call(enc, None, [n, True]))), ok(rfc_new_length(n))) for n in (0, 191, 192, 8383, 8384, 1 << 24)))
+
+    # decoder: a new-format packet header is parsed; what matters is the length it reports and the octets it leaves
+    lb = _setter(E, H, 'length', 'bytearray')
     if lb is None:
         raise AnalysisError('Header.length binary setter vanished')
     rep.saw(fn=lb)
-    pl = _nested(lb.node, '_parse_len')
-    if pl is None:
-        raise AnalysisError('Header.length_bin._parse_len vanished')
-    fo_assign = [s for s in pl.body if isinstance(s, ast.Assign) and isinstance(s.targets[0], ast.Name)]
-    fo = fo_assign[0].targets[0].id if fo_assign else 'fo'
-    arms = _if_chain(pl.body)
-    try:
-        want = {}
-        for v in range(256):
-            want[v] = 0 if v < 192 else 1 if v < 224 else 2 if v < 255 else 3
-        got = {v: _arm_of(arms, {fo: v}) for v in range(256)}
-        diff = {k: (got[k], want[k]) for k in want if got[k] != want[k]}
-        rep.check(not diff, 'C09.1', 'Header.length_bin._parse_len', 'arm per first octet %s' % dict(list(diff.items())[:4]),
-                  'first octet < 192: one octet; 192..223: two octets; 224..254: partial body length; 255: five octets', where='%s:%d' % (lb.module.relpath, pl.lineno),
-                  expected='RFC 4880 4.2.2 ranges', found=dict(list(diff.items())[:6]))
-        # returned tuples: (value, size, partial)
-        def ret_tuple(i):
-            r = [s for s in arms[i][1] if isinstance(s, ast.Return)]
-            return r[0].value.elts if r and isinstance(r[0].value, ast.Tuple) and len(r[0].value.elts) == 3 else None
-        t0, t1, t2, t3 = (ret_tuple(i) if i < len(arms) else None for i in range(4))
-        sizes = [fold(t[1], {}) if t else None for t in (t0, t1, t2, t3)]
-        parts = [ast.unparse(t[2]) if t else None for t in (t0, t1, t2, t3)]
-        rep.check(sizes == [1, 2, 1, 5] and parts == ['False', 'False', 'True', 'False'], 'C09.1', 'Header.length_bin._parse_len',
-                  'field sizes %s partial flags %s' % (sizes, parts), 'the length field occupies 1 / 2 / 1 (partial) / 5 octets', where='%s:%d' % (lb.module.relpath, pl.lineno))
-        # partial length: 1 << (fo & 0x1F)
-        bad = None
-        if t2 is not None:
-            for v in range(224, 255):
-                if fold(t2[0], {fo: v}) != (1 << (v & 0x1F)):
-                    bad = (v, fold(t2[0], {fo: v}), 1 << (v & 0x1F))
-                    break
-        rep.check(t2 is not None and bad is None, 'C09.1', 'Header.length_bin._parse_len', 'partial length %s' % (ast.unparse(t2[0]) if t2 else None),
-                  'a partial body length octet encodes 1 << (octet & 0x1F)' + ('' if bad is None else ': octet %#x gives %d, RFC %d' % bad),
-                  where='%s:%d' % (lb.module.relpath, pl.lineno), expected='1 << (fo & 0x1f)', found=ast.unparse(t2[0]) if t2 else None)
-        # two-octet decode: ((o1 - 192) << 8) + o2 + 192 with dlen = (o1 << 8) + o2
-        dl = [s for s in arms[1][1] if isinstance(s, ast.Assign)]
-        bad = None
-        if t1 is not None and dl:
-            dn = dl[0].targets[0].id
-            for o1 in range(192, 224):
-                for o2 in (0, 1, 127, 255):
-                    v = fold(t1[0], {dn: (o1 << 8) + o2})
-                    exp = ((o1 - 192) << 8) + o2 + 192
-                    if v != exp:
-                        bad = (o1, o2, v, exp)
-                        break
-                if bad:
-                    break
-            src_ok = ast.unparse(dl[0].value).replace(' ', '').endswith('[offset:offset+2])')
-        else:
-            src_ok = False
-        rep.check(t1 is not None and bad is None and src_ok, 'C09.1', 'Header.length_bin._parse_len', 'two-octet decode %s' % (ast.unparse(t1[0]) if t1 else None),
-                  'two-octet lengths decode as ((o1 - 192) << 8) + o2 + 192' + ('' if bad is None else ': %#x %#x gives %d, RFC %d' % bad),
-                  where='%s:%d' % (lb.module.relpath, pl.lineno))
-        rep.check(t3 is not None and ast.unparse(t3[0]).replace(' ', '').endswith('[offset+1:offset+5])'), 'C09.1', 'Header.length_bin._parse_len',
-                  'five-octet decode %s' % (ast.unparse(t3[0]) if t3 else None), 'five-octet lengths are the four octets after 0xFF', where='%s:%d' % (lb.module.relpath, pl.lineno))
-    except _NoFold as ex:
-        raise AnalysisError('_parse_len: expression not foldable: %s' % ex)
-    # width selector (llen getter, new format arm)
-    g = H.props['llen'].getter
+    body = b'\x5a\xa5body'
+
+    def dec(field, extra=b''):
+        def thunk():
+            buf = new_header_octets(2, field, extra)
+            buf.extend(body)
+            h = packet_header(E, PH, buf)
+            return (E.get(h, 'length'), snap(buf))
+        return thunk
+
+    def body_after(extra=b''):
+        b = VBuf(extra)
+        b.extend(body)
+        return snap(b)
+    dmsg = 'first octet < 192: one octet; 192..223: two octets ((o1 - 192) << 8) + o2 + 192; 224..254: partial body length; 255: four more octets'
+    B.sweep('C09.1', 'Header.length (octets)', lb.where, 'one-octet length fields', dmsg,
+            (('first octet %#04x' % o, dec(bytes([o])), ok((o, body_after()))) for o in range(0, 192)))
+    B.sweep('C09.1', 'Header.length (octets)', lb.where, 'two-octet length fields', dmsg,
+            (('octets %#04x %#04x' % (o1, o2), dec(bytes([o1, o2])), ok((((o1 - 192) << 8) + o2 + 192, body_after())))
+             for o1 in range(192, 224) for o2 in (0, 1, 63, 64, 127, 128, 191, 192, 254, 255)))
+    B.sweep('C09.1', 'Header.length (octets)', lb.where, 'five-octet length fields', dmsg,
+            (('octets ff %s' % v.to_bytes(4, 'big').hex(), dec(b'\xff' + v.to_bytes(4, 'big')), ok((v, body_after())))
+             for v in (0, 1, 191, 192, 8383, 8384, 65535, 65536, 0x01020304, 0x7fffffff, 0x80000000, 0xfffefdfc, 0xffffffff)))
+
+    def partial(o):
+        def thunk():
+            buf = new_header_octets(2, bytes([o]))
+            buf.extend(VBuf.fill(0x11, 1 << (o & 0x1F)))
+            buf.extend(b'\x03abc')
+            buf.extend(body)
+            h = packet_header(E, PH, buf)
+            return (E.get(h, 'length'), snap(buf))
+        return thunk
+
+    def partial_want(o):
+        b = VBuf.fill(0x11, 1 << (o & 0x1F))
+        b.extend(b'abc')
+        b.extend(body)
+        return ok(((1 << (o & 0x1F)) + 3, snap(b)))
+    B.sweep('C09.1', 'Header.length (octets)', lb.where, 'partial body length octets', 'a partial body length octet 224..254 announces 1 << (octet & 0x1F) body octets, '
+            'followed by the next length field (RFC 4880 4.2.2.4)', (('first octet %#04x' % o, partial(o), partial_want(o)) for o in range(224, 255)))
+
+    # declared width (llen, len) = emitted width
+    g = E._prop(H, 'llen')
+    g = g[0] if g else None
+    if g is None:
+        raise AnalysisError('Header.llen vanished')
     rep.saw(fn=g)
-    outer = _if_chain(g.node.body)
-    new_arm = None
-    for t, body in outer:
-        if t is not None and ast.unparse(t).replace(' ', '') in ('lf==1', 'self._lenfmt==1'):
-            new_arm = body
-    if new_arm is None:
-        raise AnalysisError('Header.llen: new-format arm not found')
-    arms = _if_chain(new_arm)
-    try:
-        want = {0: 1, 191: 1, 192: 2, 8383: 2, 8384: 5, 100000: 5}
-        got = {}
-        for n in want:
-            i = _arm_of(arms, {'self.length': n})
-            r = [s for s in arms[i][1] if isinstance(s, ast.Return)]
-            got[n] = fold(r[0].value, {}) if r else None
-        rep.check(got == want, 'C09.1', 'Header.llen', 'width per length %s' % {k: v for k, v in got.items() if want[k] != v},
-                  'the declared width must be the width the encoder actually uses (1 below 192, 2 below 8384, else 5)', where=g.where, expected=want, found=got)
-    except _NoFold as ex:
-        raise AnalysisError('Header.llen: expression not foldable: %s' % ex)
+
+    def width(n):
+        def thunk():
+            h = packet_header(E, PH, new_header_octets(2, b'\x00'))
+            E.set(h, 'length', n)
+            return (E.get(h, 'llen'), E.length(h), snap(E.method(h, '__bytearray__')))
+        return thunk
+    B.sweep('C09.1', 'Header.llen', g.where, 'declared width of a new-format length',
+            'the declared width must be the width the encoder emits (1 below 192, 2 below 8384, else 5)',
+            (('length %d' % n, width(n), ok((len(rfc_new_length(n)), 1 + len(rfc_new_length(n)), b'\xc2' + rfc_new_length(n))))
+             for n in (0, 1, 190, 191, 192, 193, 255, 256, 8382, 8383, 8384, 8385, 65535, 65536, 100000, 1 << 24, (1 << 32) - 1)))
 
 
-def widths(rep, prog, H):
-    g = H.props['llen'].getter
-    outer = _if_chain(g.node.body)
-    old_arm = None
-    for t, body in outer:
-        if t is None:
-            old_arm = body
-    if old_arm is None:
-        raise AnalysisError('Header.llen: old-format arm not found')
-    uses_length = any(isinstance(n, ast.Attribute) and n.attr in ('length', '_len') for s in old_arm for n in ast.walk(s))
-    where = '%s:%d' % (g.module.relpath, old_arm[0].lineno)
-    if not uses_length:
-        rep.violation('C09.2', 'Header.llen', 'old-format arm: %s' % ' ; '.join(ast.unparse(s) for s in old_arm),
-                      'for old-format headers the length-of-length is whatever was parsed and never depends on the current length: a body that '
-                      'outgrows it is written with more length octets than the tag octet announces', where=where,
-                      expected='width recomputed from the length (as the new-format arm does)', found=' ; '.join(ast.unparse(s) for s in old_arm))
-    else:
-        wl = [n for s in old_arm for n in ast.walk(s) if isinstance(n, ast.While)]
-        if len(wl) != 1:
-            raise AnalysisError('Header.llen old-format arm: unrecognised widening shape')
-        test = wl[0].test
-        var = None
-        for s in old_arm:
-            if isinstance(s, ast.Assign) and isinstance(s.targets[0], ast.Name):
-                var = s.targets[0].id
-        try:
-            want = {(255, 1): False, (256, 1): True, (257, 1): True, (65535, 2): False, (65536, 2): True, (65537, 2): True,
-                    (1 << 31, 4): False, (5, 0): False, (0, 1): False}
-            got = {k: bool(fold(test, {'self.length': k[0], var: k[1]})) for k in want}
-            diff = {k: got[k] for k in want if got[k] != want[k]}
-            rep.check(not diff, 'C09.2', 'Header.llen', 'widen condition %s wrong at %s' % (ast.unparse(test), diff),
-                      'an old-format length field must widen exactly when the length no longer fits: 256 needs two octets, 65536 needs four',
-                      where=where, expected='widen iff length >= 2 ** (8 * llen)', found={str(k): v for k, v in diff.items()})
-        except _NoFold as ex:
-            raise AnalysisError('Header.llen widening test not foldable: %s' % ex)
-        step = [ast.unparse(s) for s in wl[0].body]
-        rep.check(step in (['%s *= 2' % var], ['%s = %s * 2' % (var, var)]), 'C09.2', 'Header.llen', 'widening step %s' % step,
-                  'old-format widths are 1, 2, 4', where=where)
-        rets = [s for s in old_arm if isinstance(s, ast.Return)]
-        rep.check(bool(rets) and ast.unparse(rets[-1].value) == var, 'C09.2', 'Header.llen', 'returns the widened width', 'the widened value must be what is declared', where=where)
-    # writer type bits and reader map are inverse
-    hb = prog.method('pgpy.packet.types', 'Header', '__bytearray__')
-    wmap = rmap = None
-    for n in ast.walk(hb.node):
-        if isinstance(n, ast.Dict):
-            try:
-                wmap = ast.literal_eval(n)
-            except Exception:
-                pass
-    li = prog.cls('pgpy.types', 'Header').props['llen'].setters.get('int')
-    for n in ast.walk(li.node):
-        if isinstance(n, ast.Dict):
-            try:
-                rmap = ast.literal_eval(n)
-            except Exception:
-                pass
-    rep.check(wmap == {1: 0, 2: 1, 4: 2, 0: 3} and rmap == {0: 1, 1: 2, 2: 4, 3: 0}, 'C09.2', 'Header length-type maps', 'writer %s reader %s' % (wmap, rmap),
-              'old-format length-type bits: 0 -> 1 octet, 1 -> 2, 2 -> 4, 3 -> indeterminate, both ways', where=hb.where)
-    # the writer takes both the type bits and the octets from the same llen / length
-    for s in Interp(prog, Scenario(bind={'self._lenfmt': Const(0)}, inline=noinline)).run(hb):
-        r = render(s.ret)
-        rep.check('[self.llen]' in r and 'self.encode_length(self.length, 0, self.llen)' in r, 'C09.2', 'packet Header.__bytearray__', 'old format: %s' % r[:120],
-                  'type bits and length octets must come from the same (llen, length) pair', where=hb.where)
-    ol = prog.method('pgpy.types', 'Header', 'encode_length')
-    o = _nested(ol.node, '_old_length')
-    rep.check(o is not None and ast.unparse(o.body[-1]).replace(' ', '') == "returnHeader.int_to_bytes(nl,llen)ifllen>0elseb''", 'C09.2',
-              'Header.encode_length._old_length', ast.unparse(o.body[-1]) if o else None, 'old-format length is llen big-endian octets (none for indeterminate)', where=ol.where)
-    # parse side of old format
-    lbsrc = None
-    for tn, f in prog.cls('pgpy.types', 'Header').props['length'].setter_order:
-        if tn in ('bytes', 'bytearray'):
-            lbsrc = f
-    oln = _nested(lbsrc.node, '_old_len')
-    t = ast.unparse(oln).replace(' ', '') if oln else ''
-    rep.check('self._len=self.bytes_to_int(b[:self.llen])' in t and 'delb[:self.llen]' in t, 'C09.2', 'Header.length_bin._old_len', 'reads and consumes llen octets',
-              'old-format length is read from, and consumes, exactly llen octets', where=lbsrc.where)
+# ------------------------------------------------------------------------------------------------- C09.2
+def widths(rep, prog, H, B=None):
+    """Old-format length field (also run by C08 under its own rule id through a proxy: keep the signature)."""
+    B = B or Bench(rep, prog)
+    E = B.E
+    PH = prog.cls('pgpy.packet.types', 'Header')
+    g = E._prop(H, 'llen')
+    g = g[0] if g else None
+    if g is None:
+        raise AnalysisError('Header.llen vanished')
+    hb = PH.find_method('__bytearray__')
+    hp = PH.find_method('parse')
+    enc = H.find_method('encode_length')
+    if hb is None or hp is None or enc is None:
+        raise AnalysisError('packet Header codec methods vanished')
+    body = b'\x5a\xa5body'
+    TAG = 6
+
+    def old_octets(t, n, w):
+        buf = VBuf(bytes([0x80 | (TAG << 2) | t]))
+        if w:
+            buf.extend(n.to_bytes(w, 'big'))
+        buf.extend(body)
+        return buf
+
+    # reader: width by length type, value, consumption; type 3 has no length field and runs to the end of the data
+    def rd(t, n):
+        def thunk():
+            buf = old_octets(t, n, WIDTH_OF_OLD_TYPE[t])
+            h = packet_header(E, PH, buf)
+            return (E.get(h, 'llen'), E.get(h, 'length'), snap(buf))
+        return thunk
+    for t in (0, 1, 2, 3):
+        w = WIDTH_OF_OLD_TYPE[t]
+        pts = [0, 1, 200, 255] + ([256, 0xabcd, 65535] if w >= 2 else []) + ([65536, 0x01020304, 0xffffffff] if w >= 4 else [])
+        if w == 0:
+            cases = [('length type 3', rd(3, 0), ok((0, len(body), snap(body))))]
+        else:
+            cases = [('length type %d, length %d' % (t, n), rd(t, n), ok((w, n, snap(body)))) for n in pts]
+        B.sweep('C09.2', 'packet Header.parse (old format)', hp.where, 'old-format length type %d' % t,
+                'old-format length-type bits: 0 -> 1 octet, 1 -> 2, 2 -> 4, 3 -> no length field (body runs to the end of the data); '
+                'the length is read from, and consumes, exactly that many octets', cases, rep=rep)
+
+    # widening: a parsed header whose body grows declares and emits the width the new length needs
+    def grow(t, n):
+        def thunk():
+            h = packet_header(E, PH, old_octets(t, 1, WIDTH_OF_OLD_TYPE[t]))
+            E.set(h, 'length', n)
+            return (E.get(h, 'llen'), E.length(h), snap(E.method(h, '__bytearray__')))
+        return thunk
+
+    def grown(t, n):
+        w = rfc_old_width(WIDTH_OF_OLD_TYPE[t], n)
+        return ok((w, 1 + w, bytes([0x80 | (TAG << 2) | OLD_TYPE_OF_WIDTH[w]]) + (n.to_bytes(w, 'big') if w else b'')))
+    for t in (0, 1, 2, 3):
+        pts = (0, 1, 255, 256, 257, 65535, 65536, 65537, 1 << 24, 1 << 31, (1 << 32) - 1)
+        B.sweep('C09.2', 'Header.llen', g.where, 'old-format width after the length changed (parsed type %d)' % t,
+                'for old-format headers the length-of-length must follow the current length: it widens exactly when the length no longer '
+                'fits (256 needs two octets, 65536 four) and the tag octet announces the width that is written',
+                (('parsed width %d, length %d' % (WIDTH_OF_OLD_TYPE[t], n), grow(t, n), grown(t, n)) for n in pts), rep=rep)
+
+    # writer/reader type maps are inverse: what is written parses back to the same width
+    def back(t, n):
+        def thunk():
+            h = packet_header(E, PH, old_octets(t, 1, WIDTH_OF_OLD_TYPE[t]))
+            E.set(h, 'length', n)
+            out = VBuf(E.method(h, '__bytearray__'))
+            w = E.get(h, 'llen')
+            h2 = packet_header(E, PH, out)
+            return (E.get(h2, 'llen') == w, E.get(h2, 'length') if w else n, len(out))
+        return thunk
+    B.sweep('C09.2', 'Header length-type maps', hb.where, 'written old-format headers parse back',
+            'old-format length-type bits: 0 -> 1 octet, 1 -> 2, 2 -> 4, 3 -> indeterminate, both ways',
+            (('parsed type %d, length %d' % (t, n), back(t, n), ok((True, n, 0))) for t in (0, 1, 2, 3) for n in (5, 300, 70000)), rep=rep)
+
+    # the old-format arm of the length encoder
+    B.sweep('C09.2', 'Header.encode_length (old format)', enc.where, 'old-format length octets',
+            'an old-format length is llen big-endian octets (none for the indeterminate type)',
+            (('length %d in %d octets' % (n, w), (lambda n=n, w=w: snap(E.call(enc, None, [n, 0, w]))), ok(n.to_bytes(w, 'big') if w else b''))
+             for w in (1, 2, 4, 0) for n in (0, 1, 255, 256, 65535, 65536, 0xffffffff) if w == 0 or n < (1 << (8 * w))), rep=rep)
 
 
-def mpi(rep, prog):
+# ------------------------------------------------------------------------------------------------- C09.3
+def mpi(rep, prog, B):
+    E = B.E
     M = prog.cls('pgpy.packet.types', 'MPI')
-    n = M.methods.get('__new__')
-    src = ast.unparse(n.node).replace(' ', '')
-    rep.check('fl=(MPIs.bytes_to_int(num[:2])+7)//8' in src and 'delnum[:2]' in src and 'mpi=MPIs.bytes_to_int(num[:fl])' in src and 'delnum[:fl]' in src,
-              'C09.3', 'MPI.__new__', 'two-octet bit count, then (bits + 7) // 8 octets, each consumed',
-              'an MPI is a two-octet bit count followed by ceil(bits / 8) octets (RFC 4880 3.2)', where=n.where)
-    for name, exp in (('byte_length', '((self.bit_length() + 7) // 8)'), ('__len__', '(self.byte_length() + 2)')):
-        f = M.methods.get(name)
-        for s in Interp(prog, Scenario(inline=noinline)).run(f):
-            rep.check(render(s.ret) == exp, 'C09.3', 'MPI.%s' % name, render(s.ret), 'MPI octet length is ceil(bits / 8); total length adds the two count octets',
-                      where=f.where, expected=exp, found=render(s.ret))
-    f = M.methods.get('to_mpibytes')
-    for s in Interp(prog, Scenario(inline=noinline)).run(f):
-        r = render(s.ret)
-        rep.check(r == 'INT(2;self.bit_length()) INT(self.byte_length();self)', 'C09.3', 'MPI.to_mpibytes', r,
-                  'an MPI is written as its bit length in two octets followed by the value in ceil(bits / 8) octets', where=f.where,
-                  expected='INT(2;bit_length) INT(byte_length;value)', found=r)
+    new = M.find_method('__new__')
+    wr = M.find_method('to_mpibytes')
+    bl = M.find_method('byte_length')
+    ln = M.find_method('__len__')
+    if new is None or wr is None or bl is None or ln is None:
+        raise AnalysisError('MPI codec methods vanished')
+    tail = b'\xc3tail'
+
+    def magnitude(bits):
+        """An integer of exactly `bits` significant bits with a recognisable pattern."""
+        if bits == 0:
+            return 0
+        v = (1 << (bits - 1)) | (0x5A5A5A5A5A5A5A5A5A % (1 << (bits - 1)) if bits > 1 else 0)
+        return v
+
+    def rd(bits, mag):
+        def thunk():
+            buf = VBuf(bits.to_bytes(2, 'big') + mag)
+            buf.extend(tail)
+            m = E.new(M, buf)
+            return (snap(m), snap(buf))
+        return thunk
+    cases = []
+    for bits in (0, 1, 2, 7, 8, 9, 15, 16, 17, 23, 24, 25, 255, 256, 257, 1023, 1024, 2047, 2048, 2049, 4096, 65528, 65535):
+        n = (bits + 7) // 8
+        mag = magnitude(bits).to_bytes(n, 'big') if n else b''
+        cases.append(('bit count %d' % bits, rd(bits, mag), ok((magnitude(bits), tail))))
+    # the declared count decides the width, whatever the octets hold (leading zero bits, all-ones octets)
+    cases.append(('bit count 9, octets 00 ff', rd(9, b'\x00\xff'), ok((0xff, tail))))
+    cases.append(('bit count 16, octets ff ff', rd(16, b'\xff\xff'), ok((0xffff, tail))))
+    cases.append(('bit count 1, octet ff', rd(1, b'\xff'), ok((0xff, tail))))
+    B.sweep('C09.3', 'MPI.__new__', new.where, 'MPI reader', 'an MPI is a two-octet bit count followed by ceil(bits / 8) octets, both consumed (RFC 4880 3.2)', cases)
+
+    values = [1, 2, 127, 128, 255, 256, 257, 511, 65535, 65536, (1 << 64) - 1, 1 << 64, magnitude(1023), magnitude(2048), magnitude(2049), (1 << 4096) - 1]
+
+    def mk(v):
+        return Obj(M, ival=v)
+    B.sweep('C09.3', 'MPI.to_mpibytes', wr.where, 'MPI writer', 'an MPI is written as its bit length in two octets followed by the value in ceil(bits / 8) octets',
+            (('value of %d bits' % v.bit_length(), (lambda v=v: snap(E.method(mk(v), 'to_mpibytes'))),
+              ok(v.bit_length().to_bytes(2, 'big') + v.to_bytes(octets_needed(v), 'big'))) for v in values))
+    B.sweep('C09.3', 'MPI.byte_length', bl.where, 'MPI octet length', 'MPI octet length is ceil(bits / 8)',
+            (('value of %d bits' % v.bit_length(), (lambda v=v: snap(E.method(mk(v), 'byte_length'))), ok(octets_needed(v))) for v in [0] + values))
+    B.sweep('C09.3', 'MPI.__len__', ln.where, 'MPI total length', 'total length adds the two count octets',
+            (('value of %d bits' % v.bit_length(), (lambda v=v: E.length(mk(v))), ok(octets_needed(v) + 2)) for v in [0] + values))
+
+    def rt(v):
+        def thunk():
+            out = VBuf(E.method(mk(v), 'to_mpibytes'))
+            out.extend(tail)
+            return (snap(E.new(M, out)), snap(out))
+        return thunk
+    B.sweep('C09.3', 'MPI', wr.where, 'MPI round trip', 'what the writer emits the reader takes back, octet for octet',
+            (('value of %d bits' % v.bit_length(), rt(v), ok((v, tail))) for v in values))
+
+
+# ------------------------------------------------------------------------------------------------- C09.4
+def s2k_count(rep, prog, B):
+    E = B.E
+    K = prog.cls('pgpy.packet.fields', 'String2Key')
+    p = E._prop(K, 'count')
+    if p is None or p[0] is None or 'int' not in p[1]:
+        raise AnalysisError('String2Key.count property vanished')
+    g, st = p[0], p[1]['int']
+    rep.saw(fn=g)
+    rep.saw(fn=st)
+
+    def fresh():
+        try:
+            return E.new(K)
+        except (NoEval, Raised):
+            return Obj(K)
+
+    def dec(c):
+        def thunk():
+            o = fresh()
+            E.set(o, 'count', c)
+            return E.get(o, 'count')
+        return thunk
+    B.sweep('C09.4', 'String2Key.count', g.where, 'decoded count for every coded octet',
+            'the coded count octet c denotes (16 + (c & 15)) << ((c >> 4) + 6) (RFC 4880 3.7.1.3)',
+            (('c=%d' % c, dec(c), ok(rfc_count(c))) for c in range(256)))
+    for v, want in ((-1, ('raise', 'ValueError')), (0, ok(rfc_count(0))), (255, ok(rfc_count(255))), (256, ('raise', 'ValueError')),
+                    (1000, ('raise', 'ValueError'))):
+        B.sweep('C09.4', 'String2Key.count_int', st.where, 'coded count %d' % v, 'the coded count setter must accept exactly 0..255 and store the octet',
+                [('value %d' % v, dec(v), want)])
+
+
+# ------------------------------------------------------------------------------------------------- C09.5
+TIME_WRITERS = (('pgpy.packet.packets', 'PubKeyV4', 'fingerprint'), ('pgpy.packet.packets', 'PubKeyV4', '__bytearray__'),
+                ('pgpy.packet.packets', 'LiteralData', '__bytearray__'), ('pgpy.packet.subpackets.signature', 'CreationTime', '__bytearray__'))
+
+
+def _classify_time_call(fname, args):
+    """Kind of a datetime -> epoch seconds conversion from the VALUE that reaches the call (interpreter text)."""
+    last = fname.split('.')[-1]
+    if last == 'mktime':
+        return 'local'
+    if last == 'timegm' and args:
+        a = args[0]
+        if a.endswith('.utctimetuple()'):
+            return 'utc'
+        if a.endswith('.timetuple()'):
+            return 'drops-offset'
+        return 'unknown'
+    if last == 'timestamp' and not args:
+        return 'local-for-naive'
+    return 'unknown'
 
 
 def times(rep, prog):
-    n = check_time_sites(rep, prog, 'C09.5')
+    # writers: every conversion of a datetime to epoch seconds, classified by the value that reaches it on the interpreter's paths
+    # (so a named temporary or an extracted helper does not matter); the AST classification is the fallback
+    seen_fns = {}
+    for fn, node, kind, text in time_sites(prog):
+        rep.saw(fn=fn)
+        kinds = set()
+        try:
+            for s in Interp(prog, Scenario(inline=noinline)).run(fn):
+                for c in s.calls:
+                    if c[4] is node:
+                        kinds.add(_classify_time_call(c[0], c[1]))
+        except AnalysisError:
+            kinds = set()
+        if kinds and 'unknown' not in kinds:
+            kind = sorted(kinds, key=lambda k: k == 'utc')[0]     # any non-UTC path decides
+        elif kind == 'unknown':
+            raise AnalysisError('%s: datetime conversion %s has a shape the time-idiom rule does not model' % (fn.qualname, text))
+        seen_fns.setdefault(fn.qualname, []).append(kind)
+        rep.check(kind == 'utc', 'C09.5', fn.qualname, text,
+                  'a datetime is converted to epoch seconds with an idiom that ignores its UTC offset (%s)' % kind,
+                  where='%s:%d' % (fn.module.relpath, node.lineno), expected='calendar.timegm(x.utctimetuple())', found=text)
+    # each known four-octet time writer emits INT(4; <conversion>) - a conversion that left the recognised family is not silently dropped
+    for mod, cls, meth in TIME_WRITERS:
+        f = prog.method(mod, cls, meth)
+        if '%s.%s' % (cls, meth) not in seen_fns:
+            raise AnalysisError('%s.%s: no recognised datetime -> epoch seconds conversion left (time field writer)' % (cls, meth))
     # readers: int -> aware UTC datetime ; bytes -> int
     sites = [('pgpy.packet.packets', 'PubKeyV4', 'created'), ('pgpy.packet.packets', 'LiteralData', 'mtime'),
              ('pgpy.packet.subpackets.signature', 'CreationTime', 'created')]
@@ -324,150 +513,246 @@ def times(rep, prog):
         sb = p.setters.get('bytearray') or p.setters.get('bytes')
         if si is None or sb is None:
             raise AnalysisError('%s.%s int/bytes setters vanished' % (cls, prop))
+        rep.saw(fn=si)
+        rep.saw(fn=sb)
+        pv = si.params[1]
         for s in Interp(prog, Scenario(inline=noinline)).run(si):
-            v = [val for pth, val, l, _ in s.stores if pth == 'self.%s' % prop]
-            rep.check(v == ['datetime.fromtimestamp(val, timezone.utc)'], 'C09.5', '%s.%s (int)' % (cls, prop), '%s' % v,
+            v = [val for pth, val, l, _ in s.stores if pth.startswith(si.params[0] + '.')]     # the property or its backing attribute
+            verdict = _aware_utc_from_seconds(s, v, pv)
+            if verdict is None:
+                raise AnalysisError('%s.%s (int): value %s is not a conversion the time-reader rule models' % (cls, prop, v))
+            rep.check(verdict, 'C09.5', '%s.%s (int)' % (cls, prop), '%s' % v,
                       'four-octet times are seconds since 1970 UTC and must become aware UTC datetimes', where=si.where,
-                      expected='datetime.fromtimestamp(val, timezone.utc)', found=v)
+                      expected='datetime.fromtimestamp(<seconds>, timezone.utc)', found=v)
+        bv = sb.params[1]
         for s in Interp(prog, Scenario(inline=noinline)).run(sb):
-            v = [val for pth, val, l, _ in s.stores if pth == 'self.%s' % prop]
-            rep.check(v == ['self.bytes_to_int(val)'], 'C09.5', '%s.%s (bytes)' % (cls, prop), '%s' % v, 'the four octets are one big-endian number', where=sb.where)
+            v = [val for pth, val, l, _ in s.stores if pth.startswith(sb.params[0] + '.')]
+            good = ('%s.bytes_to_int(%s)' % (sb.params[0], bv), "int.from_bytes(%s, 'big')" % bv, "int.from_bytes(%s, byteorder='big')" % bv)
+            rep.check(len(v) == 1 and v[0] in good, 'C09.5', '%s.%s (bytes)' % (cls, prop), '%s' % v, 'the four octets are one big-endian number', where=sb.where)
     ex = prog.cls('pgpy.packet.subpackets.signature', 'SignatureExpirationTime')
     f = ex.methods.get('__bytearray__')
+    if f is None:
+        raise AnalysisError('SignatureExpirationTime.__bytearray__ vanished')
     for s in Interp(prog, Scenario()).run(f):
         rep.check(render(s.ret).endswith('INT(4;int(self.expires.total_seconds()))'), 'C09.5', 'SignatureExpirationTime.__bytearray__', render(s.ret)[-60:],
                   'expiration times are written as whole seconds in four octets', where=f.where)
 
 
-def subpacket_header(rep, prog):
+def _aware_utc_from_seconds(s, stored, pv):
+    """True: the stored value is an aware UTC datetime built from the seconds parameter; False: it is naive / local / built from
+    something else; None: not modelled."""
+    if len(stored) != 1:
+        return None
+    utc = ('timezone.utc', 'datetime.timezone.utc', 'utc', 'UTC')
+    for c in s.calls:
+        fname, args, kw = c[0], c[1], c[2]
+        if fname.split('.')[-1] == 'fromtimestamp':
+            recorded = '%s(%s)' % (fname, ', '.join(list(args) + ['%s=%s' % kv for kv in kw.items()]))
+            if recorded != stored[0]:
+                continue
+            if not args or args[0] != pv:
+                return False
+            tz = args[1] if len(args) > 1 else kw.get('tz')
+            return tz in utc
+        if fname.split('.')[-1] == 'utcfromtimestamp':
+            # naive unless the zone is attached afterwards
+            if stored[0] == '%s(%s)' % (fname, ', '.join(args)):
+                return False
+            if stored[0] in ['%s(%s).replace(tzinfo=%s)' % (fname, ', '.join(args), z) for z in utc]:
+                return bool(args) and args[0] == pv
+    return None
+
+
+# ------------------------------------------------------------------------------------------------- C09.6
+def subpacket_header(rep, prog, B):
+    E = B.E
     SH = prog.cls('pgpy.packet.subpackets.types', 'Header')
-    f = SH.methods.get('__bytearray__')
-    for s in Interp(prog, Scenario(inline=noinline)).run(f):
-        r = render(s.ret)
-        rep.check(r == 'self.encode_length(self.length) INT(1;((int(self.critical) << 7) + self.typeid))', 'C09.6', 'subpacket Header.__bytearray__', r,
-                  'a subpacket header is its new-format length followed by the type octet with the critical bit in bit 7', where=f.where,
-                  expected='encode_length(length) INT(1;(critical << 7) + typeid)', found=r)
-    ti = SH.props['typeid'].setters.get('int')
-    for s in Interp(prog, Scenario(inline=noinline)).run(ti):
-        v = [val for pth, val, l, _ in s.stores if pth == 'self._typeid']
-        rep.check(v == ['(val & 127)'], 'C09.6', 'subpacket Header.typeid_int', '%s' % v, 'the type is the low seven bits', where=ti.where)
-    tb = SH.props['typeid'].setters.get('bytearray') or SH.props['typeid'].setters.get('bytes')
-    for s in Interp(prog, Scenario(inline=noinline, forward_stores=False)).run(tb):
-        st = {pth: val for pth, val, l, _ in s.stores}
-        rep.check(st.get('self.typeid') == 'self.bytes_to_int(val)' and st.get('self.critical') == 'bool((self.bytes_to_int(val) & 128))', 'C09.6',
-                  'subpacket Header.typeid_bin', '%s' % st, 'the critical flag is bit 7 of the type octet', where=tb.where)
-    ln = SH.methods.get('__len__')
-    for s in Interp(prog, Scenario(inline=noinline)).run(ln):
-        rep.check(render(s.ret) == '(self.llen + 1)', 'C09.6', 'subpacket Header.__len__', render(s.ret), 'header length = length field + type octet', where=ln.where)
-    ps = SH.methods.get('parse')
-    src = ast.unparse(ps.node).replace(' ', '')
-    rep.check('self.length=packet' in src and 'self.typeid=packet[:1]' in src and 'delpacket[:1]' in src, 'C09.6', 'subpacket Header.parse',
-              'length then one type octet, consumed', 'reader mirrors the writer', where=ps.where)
+    wr = SH.find_method('__bytearray__')
+    ps = SH.find_method('parse')
+    ln = SH.find_method('__len__')
+    ti = _setter(E, SH, 'typeid', 'int')
+    tb = _setter(E, SH, 'typeid', 'bytearray')
+    if wr is None or ps is None or ln is None or ti is None or tb is None:
+        raise AnalysisError('subpacket Header codec methods vanished')
+    body = b'\x5a\xa5body'
+    lens = (0, 1, 191, 192, 193, 8383, 8384, 70000)
+
+    def write(crit, t, n):
+        def thunk():
+            h = E.new(SH)
+            E.set(h, 'length', n)
+            E.set(h, 'typeid', t)
+            E.set(h, 'critical', crit)
+            return (snap(E.method(h, '__bytearray__')), E.length(h))
+        return thunk
+    B.sweep('C09.6', 'subpacket Header.__bytearray__', wr.where, 'subpacket header writer',
+            'a subpacket header is its new-format length followed by the type octet with the critical bit in bit 7; its length is the length field plus one',
+            (('critical=%s type=%d length=%d' % (crit, t, n), write(crit, t, n),
+              ok((rfc_new_length(n) + bytes([(0x80 if crit else 0) | t]), len(rfc_new_length(n)) + 1)))
+             for crit in (False, True) for t in range(128) for n in (lens if t in (0, 2, 127) else (5,))))
+
+    def masked(v):
+        def thunk():
+            h = E.new(SH)
+            E.set(h, 'typeid', v)
+            return E.get(h, 'typeid')
+        return thunk
+    B.sweep('C09.6', 'subpacket Header.typeid_int', ti.where, 'type from an integer', 'the type is the low seven bits',
+            (('value %#04x' % v, masked(v), ok(v & 0x7F)) for v in range(256)))
+
+    def read(o, n):
+        def thunk():
+            buf = VBuf(rfc_new_length(n) + bytes([o]) + body)
+            h = E.new(SH)
+            E.method(h, 'parse', buf)
+            return (E.get(h, 'length'), E.get(h, 'typeid'), E.get(h, 'critical'), snap(buf), E.length(h))
+        return thunk
+    B.sweep('C09.6', 'subpacket Header.parse', ps.where, 'subpacket header reader',
+            'the reader takes the new-format length, then one type octet: type = low seven bits, critical = bit 7; both are consumed',
+            (('type octet %#04x length %d' % (o, n), read(o, n), ok((n, o & 0x7F, bool(o & 0x80), body, len(rfc_new_length(n)) + 1)))
+             for o in range(256) for n in (lens if o in (0x02, 0x82, 0xff) else (5,))))
+
+    def rt(crit, t, n):
+        def thunk():
+            h = E.new(SH)
+            E.set(h, 'length', n)
+            E.set(h, 'typeid', t)
+            E.set(h, 'critical', crit)
+            out = VBuf(E.method(h, '__bytearray__'))
+            h2 = E.new(SH)
+            E.method(h2, 'parse', out)
+            return (E.get(h2, 'length'), E.get(h2, 'typeid'), E.get(h2, 'critical'), len(out))
+        return thunk
+    B.sweep('C09.6', 'subpacket Header', ln.where, 'subpacket header round trip', 'what the writer emits the reader takes back',
+            (('critical=%s type=%d length=%d' % (crit, t, n), rt(crit, t, n), ok((n, t, crit, 0))) for crit in (False, True) for t in (0, 2, 33, 127) for n in lens))
 
 
-def primitives(rep, prog):
+# ------------------------------------------------------------------------------------------------- C09.7
+def primitives(rep, prog, B):
+    E = B.E
     P = prog.cls('pgpy.types', 'PGPObject')
-    f = P.methods.get('int_byte_len')
-    for s in Interp(prog, Scenario(inline=noinline)).run(f):
-        rep.check(render(s.ret) == '((i.bit_length() + 7) // 8)', 'C09.7', 'PGPObject.int_byte_len', render(s.ret), 'octets needed = ceil(bits / 8)', where=f.where)
-    f = P.methods.get('int_to_bytes')
-    for s in Interp(prog, Scenario(inline=noinline, args={'order': Const('big')})).run(f):
-        r = render(s.ret)
-        rep.check(r == "i.to_bytes(max(minlen, PGPObject.int_byte_len(i), 1), 'big')", 'C09.7', 'PGPObject.int_to_bytes', r,
-                  'int_to_bytes(i, n) emits max(n, octets needed, 1) big-endian octets (the axiom all layout rules use)', where=f.where,
-                  expected="i.to_bytes(max(minlen, int_byte_len(i), 1), 'big')", found=r)
-    d = f.node.args.defaults
-    rep.check([ast.literal_eval(x) for x in d] == [1, 'big'], 'C09.7', 'PGPObject.int_to_bytes', 'defaults %s' % [ast.unparse(x) for x in d],
-              'default width 1, big-endian', where=f.where)
-    f = P.methods.get('bytes_to_int')
-    for s in Interp(prog, Scenario(inline=noinline, args={'order': Const('big')})).run(f):
-        rep.check(render(s.ret) == "int.from_bytes(b, 'big')", 'C09.7', 'PGPObject.bytes_to_int', render(s.ret), 'big-endian octets to integer', where=f.where)
+    ibl = P.find_method('int_byte_len')
+    i2b = P.find_method('int_to_bytes')
+    b2i = P.find_method('bytes_to_int')
+    if ibl is None or i2b is None or b2i is None:
+        raise AnalysisError('PGPObject integer primitives vanished')
+    ints = [0, 1, 2, 127, 128, 255, 256, 257, 32767, 32768, 65535, 65536, (1 << 24) - 1, 1 << 24, (1 << 32) - 1, 1 << 32, (1 << 63), (1 << 64) - 1,
+            (1 << 2048) - 1]
+    B.sweep('C09.7', 'PGPObject.int_byte_len', ibl.where, 'octets needed', 'octets needed = ceil(bits / 8)',
+            (('i=%#x' % i if i < (1 << 70) else 'i of %d bits' % i.bit_length(), (lambda i=i: E.call(ibl, None, [i])), ok(octets_needed(i))) for i in ints))
+
+    def want(i, n):
+        return ok(i.to_bytes(max(n, octets_needed(i), 1), 'big'))
+    cases = []
+    for i in ints:
+        lab = 'i=%#x' % i if i < (1 << 70) else 'i of %d bits' % i.bit_length()
+        cases.append(('%s, default width' % lab, (lambda i=i: snap(E.call(i2b, None, [i]))), want(i, 1)))
+        for n in (0, 1, 2, 3, 4, 8, 20):
+            cases.append(('%s, width %d' % (lab, n), (lambda i=i, n=n: snap(E.call(i2b, None, [i, n]))), want(i, n)))
+    B.sweep('C09.7', 'PGPObject.int_to_bytes', i2b.where, 'integer to octets',
+            'int_to_bytes(i, n) emits max(n, octets needed, 1) big-endian octets (the axiom all layout rules use); default width 1', cases)
+    octs = [b'', b'\x00', b'\x01', b'\xff', b'\x01\x00', b'\x00\x01', b'\x80\x00', b'\x12\x34\x56', b'\x00\x00\x00\x01', b'\xff\xff\xff\xff',
+            b'\x01\x02\x03\x04\x05\x06\x07\x08\x09']
+    cases = []
+    for o in octs:
+        cases.append(('octets %s (bytes)' % (o.hex() or 'none'), (lambda o=o: E.call(b2i, None, [o])), ok(int.from_bytes(o, 'big'))))
+        cases.append(('octets %s (bytearray)' % (o.hex() or 'none'), (lambda o=o: E.call(b2i, None, [VBuf(o)])), ok(int.from_bytes(o, 'big'))))
+    B.sweep('C09.7', 'PGPObject.bytes_to_int', b2i.where, 'octets to integer', 'big-endian octets to integer', cases)
 
 
-def tag_octet(rep, prog):
+# ------------------------------------------------------------------------------------------------- C09.8
+def tag_octet(rep, prog, B):
+    E = B.E
     PH = prog.cls('pgpy.packet.types', 'Header')
-    hb = PH.methods['__bytearray__']
-    exprs = {}
-    for lf in (0, 1):
-        for s in Interp(prog, Scenario(bind={'self._lenfmt': Const(lf)}, inline=noinline)).run(hb):
-            its = merge_consts(s.ret.items) if isinstance(s.ret, Bytes) else []
-            if not its or its[0][0] != 'INT' or its[0][1] != '1':
-                raise AnalysisError('packet Header.__bytearray__: first term is not the one-octet tag')
-            try:
-                exprs[lf] = ast.parse(its[0][2], mode='eval').body
-            except SyntaxError:
-                raise AnalysisError('packet Header.__bytearray__: tag expression not parseable: %s' % its[0][2])
-    try:
-        bad = None
-        for tag in range(64):
-            o = fold(exprs[1], {'self.tag': tag})
-            if o != (0xC0 | tag):
-                bad = ('new', tag, o, 0xC0 | tag)
-                break
-        rep.check(bad is None, 'C09.8', 'packet Header.__bytearray__', 'new-format tag octet %s' % (bad,), 'a new-format tag octet is 0xC0 | tag (RFC 4880 4.2)',
-                  where=hb.where, found=ast.unparse(exprs[1]))
-        bad = None
-        for tag in range(16):
-            for llen, lt in ((1, 0), (2, 1), (4, 2), (0, 3)):
-                o = fold(exprs[0], {'self.tag': tag, 'self.llen': llen})
-                if o != (0x80 | (tag << 2) | lt):
-                    bad = ('old', tag, llen, o, 0x80 | (tag << 2) | lt)
-                    break
-            if bad:
-                break
-        rep.check(bad is None, 'C09.8', 'packet Header.__bytearray__', 'old-format tag octet %s' % (bad,),
-                  'an old-format tag octet is 0x80 | tag << 2 | length-type (RFC 4880 4.2)', where=hb.where, found=ast.unparse(exprs[0]))
-    except _NoFold as ex:
-        raise AnalysisError('packet Header tag expression not foldable: %s' % ex)
-    # reader
-    hp = PH.methods['parse']
-    asg = {}
-    for n in ast.walk(hp.node):
-        if isinstance(n, ast.Assign) and isinstance(n.targets[0], ast.Attribute):
-            asg.setdefault(n.targets[0].attr, n.value)
-    ti = PH.props['tag'].setters.get('int')
-    tval = None
-    for n in ast.walk(ti.node):
-        if isinstance(n, ast.Assign) and isinstance(n.targets[0], ast.Name) and n.targets[0].id == '_tag':
-            tval = n.value
-    if '_lenfmt' not in asg or 'llen' not in asg or tval is None or ast.unparse(asg.get('tag')) != 'packet[0]':
-        raise AnalysisError('packet Header.parse / tag_int: unrecognised shape')
-    pv = ti.params[1]
-    try:
-        bad = None
-        for o in range(0x80, 0x100):
-            lf = fold(asg['_lenfmt'], {'packet[0]': o})
-            t = fold(tval, {pv: o, 'self._lenfmt': lf})
-            want_lf = (o >> 6) & 1
-            want_t = (o & 0x3F) if want_lf else ((o >> 2) & 0x0F)
-            lt = fold(asg['llen'], {'packet[0]': o})
-            if lf != want_lf or t != want_t or (not want_lf and lt != (o & 3)):
-                bad = (hex(o), lf, t, lt)
-                break
-        rep.check(bad is None, 'C09.8', 'packet Header.parse', 'tag octet decode %s' % (bad,),
-                  'bit 6 selects the format; new format: tag = low six bits; old format: tag = bits 5..2, length type = bits 1..0', where=hp.where)
-    except _NoFold as ex:
-        raise AnalysisError('packet Header.parse expression not foldable: %s' % ex)
-    ifs = [n for n in ast.walk(hp.node) if isinstance(n, ast.If) and any(ast.unparse(x) == 'self.length = packet' for x in n.body)]
-    ok = len(ifs) == 1
-    if ok:
-        try:
-            tbl = {(lf, ll): bool(fold(ifs[0].test, {'self._lenfmt': lf, 'self.llen': ll})) for lf in (0, 1) for ll in (0, 1, 2, 4)}
-            ok = tbl == {(0, 0): False, (0, 1): True, (0, 2): True, (0, 4): True, (1, 0): True, (1, 1): True, (1, 2): True, (1, 4): True}
-        except _NoFold:
-            ok = False
-        ok = ok and any(ast.unparse(x).replace(' ', '') == 'self.length=len(packet)' for x in ifs[0].orelse)
-    rep.check(ok, 'C09.8', 'packet Header.parse', 'length present unless old-format type 3', 'an old-format header of length type 3 has no length field: '
-              'the body runs to the end of the data; every other header carries a length', where=hp.where)
+    H = prog.cls('pgpy.types', 'Header')
+    hb = PH.find_method('__bytearray__')
+    hp = PH.find_method('parse')
+    tg = _setter(E, PH, 'tag', 'int')
+    if hb is None or hp is None or tg is None:
+        raise AnalysisError('packet Header tag codec vanished')
+    body = b'\x5a\xa5body'
+
+    # writer, fresh header (new format is the default for packets PGPy creates)
+    def fresh(tag, n):
+        def thunk():
+            h = E.new(PH)
+            E.set(h, 'tag', tag)
+            E.set(h, 'length', n)
+            return (snap(E.method(h, '__bytearray__')), E.length(h))
+        return thunk
+    B.sweep('C09.8', 'packet Header.__bytearray__', hb.where, 'new-format tag octet of a header built in memory',
+            'a new-format tag octet is 0xC0 | tag followed by the new-format length (RFC 4880 4.2)',
+            (('tag %d length %d' % (t, n), fresh(t, n), ok((bytes([0xC0 | t]) + rfc_new_length(n), 1 + len(rfc_new_length(n)))))
+             for t in range(64) for n in ((0, 191, 192, 8384) if t in (2, 63) else (7,))))
+
+    # reader + writer, every tag octet with bit 7 set
+    def through(o, field):
+        def thunk():
+            buf = VBuf(bytes([o]) + field + body)
+            h = packet_header(E, PH, buf)
+            return (E.get(h, 'tag'), E.get(h, 'length'), snap(buf), snap(E.method(h, '__bytearray__')))
+        return thunk
+    B.sweep('C09.8', 'packet Header.parse', hp.where, 'new-format tag octets', 'bit 6 selects the format; new format: tag = low six bits',
+            (('octet %#04x' % o, through(o, b'\xc5\xfb'), ok((o & 0x3F, 1723, body, bytes([o]) + b'\xc5\xfb'))) for o in range(0xC0, 0x100)))
+
+    def old_cases():
+        for o in range(0x80, 0xC0):
+            w = WIDTH_OF_OLD_TYPE[o & 3]
+            n = {1: 200, 2: 0x1234, 4: 0x01020304, 0: len(body)}[w]
+            field = n.to_bytes(w, 'big') if w else b''
+            yield ('octet %#04x' % o, through(o, field), ok(((o >> 2) & 0x0F, n, body, bytes([o]) + field)))
+    B.sweep('C09.8', 'packet Header.parse', hp.where, 'old-format tag octets',
+            'old format: tag = bits 5..2, length type = bits 1..0; an old-format tag octet is 0x80 | tag << 2 | length-type; a header of length '
+            'type 3 has no length field: the body runs to the end of the data; every other header carries a length', old_cases())
+
+    # tag setter applied to a tag octet / small tag
+    def settag(lenfmt_octet, v):
+        def thunk():
+            h = packet_header(E, PH, VBuf(bytes([lenfmt_octet, 0])))
+            E.set(h, 'tag', v)
+            return E.get(h, 'tag')
+        return thunk
+    B.sweep('C09.8', 'packet Header.tag (int)', tg.where, 'tag from an integer', 'new format keeps the low six bits, old format takes bits 5..2 of the tag octet',
+            [('new format, value %#04x' % v, settag(0xC2, v), ok(v & 0x3F)) for v in range(0, 256, 1)] +
+            [('old format, value %#04x' % v, settag(0x88, v), ok((v & 0x3C) >> 2)) for v in range(0, 256, 1)])
+
     # partial body lengths: each chunk header is removed where it sits and the chunk lengths add up
-    lb = None
-    for tn, f in prog.cls('pgpy.types', 'Header').props['length'].setter_order:
-        if tn in ('bytes', 'bytearray'):
-            lb = f
-    nl = _nested(lb.node, '_new_len')
-    t = ast.unparse(nl).replace(' ', '') if nl else ''
-    ok = 'part_len,size,partial=_parse_len(b)' in t and 'delb[:size]' in t and 'total=part_len' in t and 'whilepartial:' in t and \
-        'part_len,size,partial=_parse_len(b,total)' in t and 'delb[total:total+size]' in t and 'total+=part_len' in t and 'self._len=total' in t and \
-        t.index('delb[total:total+size]') < t.index('total+=part_len')
-    rep.check(ok, 'C09.8', 'Header.length_bin._new_len', 'partial-length accumulation', 'after a partial chunk the next length field sits `total` octets in; it is '
-              'removed there (all its octets) and the chunk lengths add up to the body length', where=lb.where)
+    lb = _setter(E, H, 'length', 'bytearray')
+
+    def chain(chunks, final_field, final_len):
+        """chunks: exponents of the partial chunks; then one final (non-partial) length field and its body."""
+        def build():
+            buf = VBuf(b'\xc2')
+            want = VBuf()
+            total = 0
+            for k, e in enumerate(chunks):
+                buf.extend(bytes([0xE0 | e]))
+                seg = VBuf.fill(0x10 + k, 1 << e)
+                buf.extend(seg)
+                want.extend(seg)
+                total += 1 << e
+            buf.extend(final_field)
+            seg = VBuf.fill(0x77, final_len)
+            buf.extend(seg)
+            want.extend(seg)
+            buf.extend(b'next')
+            want.extend(b'next')
+            return buf, want, total + final_len
+
+        def thunk():
+            buf, _, _ = build()
+            h = packet_header(E, PH, buf)
+            return (E.get(h, 'length'), snap(buf))
+        _, want, total = build()
+        return thunk, ok((total, snap(want)))
+    cases = []
+    for chunks, n in (((0,), 0), ((1,), 1), ((9,), 191), ((9,), 192), ((9,), 1723), ((9,), 8383), ((9,), 8384), ((3,), 70000), ((1, 9), 5),
+                      ((9, 1), 300), ((2, 3, 4), 0), ((0, 0, 0, 0), 200), ((13, 13), 8384), ((30,), 3), ((16, 30, 1), 256)):
+        t, w = chain(chunks, rfc_new_length(n), n)
+        cases.append(('partial chunks 2^%s then a %d-octet length field (%d)' % (list(chunks), len(rfc_new_length(n)), n), t, w))
+    # a final chunk may use a non-minimal five-octet field
+    t, w = chain((4,), b'\xff\x00\x00\x00\x05', 5)
+    cases.append(('partial chunk 2^4 then ff 00 00 00 05', t, w))
+    B.sweep('C09.8', 'Header.length (octets)', _where(lb, hp), 'partial-length accumulation',
+            'after a partial chunk the next length field sits `total` octets in; it is removed there (all its octets) and the chunk lengths add up to '
+            'the body length, leaving the contiguous body', cases)
